@@ -12,9 +12,10 @@ Proof. exact chunk_independent. Qed.
 Print Assumptions C05_chunk_independent.
 
 (* Default mode: for an input that is leading separators followed by well-formed words, each
-   followed by separators, the reader yields exactly the unquoted words, in order, flagged
-   hard iff the first separator after the word is a newline - nothing for leading, trailing
-   or repeated separators - whatever the chunking. *)
+   followed by separators (blank = space or tab, and newline; nothing else separates), the reader
+   yields exactly the unquoted words, in order, flagged hard iff the first separator after the
+   word is a newline - nothing for leading, trailing or repeated separators, and an empty
+   argument for '' or "" wherever it stands - whatever the chunking. *)
 Theorem C05_words_exact : forall chunks lead l,
   all_ws lead = true -> items_ok l = true -> concat chunks = lead ++ render_items l ->
   ws_read chunks = Ok (expected l).
@@ -30,16 +31,30 @@ Theorem C05_unterminated_quote : forall chunks l w q s,
 Proof. exact ws_read_unterminated. Qed.
 Print Assumptions C05_unterminated_quote.
 
+(* A backslash with nothing after it quotes nothing: no argument comes of it. *)
+Theorem C05_trailing_backslash : forall chunks l,
+  items_ok l = true -> Forall (fun it => nonempty (snd it) = true) l ->
+  concat chunks = render_items l ++ [92] -> ws_read chunks = Ok (expected l).
+Proof. exact ws_read_trailing_backslash. Qed.
+Print Assumptions C05_trailing_backslash.
+
 (* -0 / -d C: the arguments are exactly the non-empty fields between delimiter bytes; no
    quote or backslash processing, every other byte unchanged. *)
 Theorem C05_delim_verbatim : forall d chunks, bd_read d chunks = fields d (concat chunks).
 Proof. exact bd_read_fields. Qed.
 Print Assumptions C05_delim_verbatim.
 
-(* non-vacuity: a concrete input meeting the hypotheses:  "  a 'b c'\ d\n\ne  " *)
+(* the separators are exactly space, tab and newline (CR, FF, VT belong to the argument) *)
+Theorem C05_separators : forall c, is_ws c = true <-> c = 32 \/ c = 9 \/ c = 10.
+Proof.
+  intros c. unfold is_ws. rewrite !orb_true_iff, !Nat.eqb_eq. tauto.
+Qed.
+
+(* non-vacuity: a concrete input meeting the hypotheses:  "  a 'b c'\ d\n\ne  " ; and  "'' x\r \"  *)
 Example C05_witness :
   let l := [([P 97], [32]); ([Q 39 [98; 32; 99]; B 32; P 100], [10; 10]); ([P 101], [32; 32])] in
   all_ws [32; 32] = true /\ items_ok l = true /\
   ws_read [[32; 32; 97; 32; 39; 98]; [32; 99; 39; 92]; [32; 100; 10; 10; 101; 32; 32]]
-  = Ok [([97], false); ([98; 32; 99; 32; 100], true); ([101], false)].
+  = Ok [([97], false); ([98; 32; 99; 32; 100], true); ([101], false)] /\
+  ws_read [[39; 39; 32; 120; 13; 32; 92]] = Ok [([], false); ([120; 13], false)].
 Proof. vm_compute. repeat split. Qed.
